@@ -15,6 +15,12 @@ Deliberately lenient where the statement is silent (see DESIGN §4 C18 *Interpre
     looser pattern accepts (commas, trailing newline) are never REQUIRED to be recorded/reported,
     and are ALLOWED to be (they are files present) - counted under `logged`, not judged;
   * a directory (or other non-regular entry) carrying a blob's name is logged, not judged.
+
+A symbolic link that resolves to a regular file IS a file present (kind 'l': open()/os.path.isfile, i.e.
+everything that reads and serves a blob, follow it - a blob store partly moved to another volume and
+linked back); a dangling link or a link to a directory is a non-regular entry (kind 'o').  The statement
+puts no bound on the size of a file present: one larger than the protocol's 2 MiB blob limit whose
+content hashes to its name is judged like any other (class suffix in the mechanism key).
 """
 import hashlib
 import os
@@ -24,6 +30,8 @@ import stat
 import tempfile
 
 HEXCHARS = frozenset('0123456789abcdef')
+FILE_KINDS = ('f', 'l')            # regular file, symbolic link resolving to a regular file
+MAX_BLOB_SIZE = 2 * 2 ** 20        # protocol constant (2 MiB), written down here independently of lbry
 # public vector: the blob used by lbry's own tests/unit/blob/test_blob_manager.py
 VECTOR_CONTENT = b'1' * ((2 * 2 ** 20) - 1)
 VECTOR_NAME = '7f5ab2def99f0ddd008da71db3a3772135f4002b19b7605840ed1034c8955431bd7079549e65e6b2a3b9c17c773073ed'
@@ -48,14 +56,22 @@ def self_check():
 
 
 def snap_disk(blob_dir):
-    """{name: [kind 'f'|'d'|'o', size, genuine True|False|None]} for every directory entry."""
+    """{name: [kind 'f'|'l'|'d'|'o', size, genuine True|False|None]} for every directory entry; 'l' = symbolic
+    link that resolves to a regular file (size / genuine are those of the file it leads to)."""
     out = {}
     with os.scandir(blob_dir) as it:
         for e in it:
             st = e.stat(follow_symlinks=False)
             kind = 'f' if stat.S_ISREG(st.st_mode) else ('d' if stat.S_ISDIR(st.st_mode) else 'o')
+            if stat.S_ISLNK(st.st_mode):
+                try:
+                    target = os.stat(e.path)
+                except OSError:             # dangling / loop
+                    target = None
+                if target is not None and stat.S_ISREG(target.st_mode):
+                    kind, st = 'l', target
             genuine = None
-            if kind == 'f' and strict_blob_name(e.name) and st.st_size > 0:
+            if kind in FILE_KINDS and strict_blob_name(e.name) and st.st_size > 0:
                 with open(e.path, 'rb') as f:
                     genuine = hashlib.sha384(f.read()).hexdigest() == e.name
             out[e.name] = [kind, st.st_size, genuine]
@@ -104,7 +120,7 @@ def classify(disk, db):
     unrecorded = 0
     for name, (kind, size, genuine) in disk.items():
         row = db.get(name)
-        if kind == 'f' and strict_blob_name(name):
+        if kind in FILE_KINDS and strict_blob_name(name):
             if size == 0:
                 inc('zero_length_valid_name')
             elif genuine:
@@ -116,9 +132,16 @@ def classify(disk, db):
                 else:
                     inc('file_with_pending_row')
                     unrecorded += 1
+                recorded = 'with_finished_row' if row is not None and row[0] == 'finished' else 'unrecorded'
+                if kind == 'l':
+                    inc('symlinked_file_' + recorded)
+                if size > MAX_BLOB_SIZE:
+                    inc('oversize_file_' + recorded)
+                elif size == MAX_BLOB_SIZE:
+                    inc('full_size_file_' + recorded)
             else:
                 inc('valid_name_junk_content')
-        elif kind == 'f':
+        elif kind in FILE_KINDS:
             if len(name) == 96 and (',' in name or name.endswith('\n')):
                 inc('loose_name_file')
             else:
@@ -150,11 +173,16 @@ def evaluate(pre_disk, pre_db, completed, announced, post_disk, post_db, further
     def cnt(d, k, n=1):
         d[k] = d.get(k, 0) + n
 
-    regular = {n for n, (k, _s, _g) in post_disk.items() if k == 'f'}
+    regular = {n for n, (k, _s, _g) in post_disk.items() if k in FILE_KINDS}
+
+    def special(n):
+        """input class of a file present that goes into the mechanism key ('' for an ordinary regular file)"""
+        return ('+symlinked-file' if post_disk[n][0] == 'l' else '') + \
+               ('+larger-than-max-blob-size' if post_disk[n][1] > MAX_BLOB_SIZE else '')
     must = {n for n in regular if strict_blob_name(n) and post_disk[n][1] > 0 and post_disk[n][2]}
     # files the start has to look at (whatever their content): decides which batching branch is reached
     pre_unrecorded = sum(1 for n, (k, _s, _g) in pre_disk.items()
-                         if k == 'f' and strict_blob_name(n) and pre_db.get(n, [None])[0] != 'finished')
+                         if k in FILE_KINDS and strict_blob_name(n) and pre_db.get(n, [None])[0] != 'finished')
     if sorted(pre_disk) != sorted(post_disk):
         cnt(logged, 'restart_changed_directory_listing')
 
@@ -196,6 +224,7 @@ def evaluate(pre_disk, pre_db, completed, announced, post_disk, post_db, further
             continue
         before = pre_db.get(n)
         cls = 'no-row-before' if before is None else (before[0] + '-row-before')
+        cls += special(n)
         if pre_unrecorded > 500:
             cls += '+over-500-unrecorded-files'
         by_class.setdefault(cls, []).append(n)
@@ -216,7 +245,7 @@ def evaluate(pre_disk, pre_db, completed, announced, post_disk, post_db, further
     cnt(counters, 'Z3.checked')
     bad, vanished = [], []
     for h, (status, _l) in pre_db.items():
-        if status != 'finished' or h in pre_disk and pre_disk[h][0] == 'f':
+        if status != 'finished' or h in pre_disk and pre_disk[h][0] in FILE_KINDS:
             continue
         if h in pre_disk or h in post_disk:
             cnt(logged, 'Z3.name_taken_by_non_file_or_reappeared')
@@ -245,9 +274,11 @@ def evaluate(pre_disk, pre_db, completed, announced, post_disk, post_db, further
         cnt(counters, 'Z4.checked')
         cnt(counters, 'Z4.files', len(must))
         got = set(completed)
-        missing = sorted(must - got)
-        if missing:
-            findings.append(('Z4/further-restart-does-not-report-file-present',
+        by_class = {}
+        for n in sorted(must - got):
+            by_class.setdefault(special(n), []).append(n)
+        for cls, missing in by_class.items():
+            findings.append(('Z4/further-restart-does-not-report-file-present' + (cls and '/' + cls[1:]),
                              f'{len(missing)} blob file(s) present are not in completed_blob_hashes after a further restart '
                              f'with nothing changed, e.g. {missing[0][:16]}..',
                              {'hashes': missing[:5], 'count': len(missing),
